@@ -10,7 +10,7 @@ import math
 from decimal import Decimal
 
 from . import c02
-from .c02 import C02, LAXABLE, Undefined, digit_counts, sat
+from .c02 import C02, LAXABLE, Undefined, dec2, digit_counts, enc2, sat
 from .pyval import decode, encode
 
 LAX_NAMES = ["lax_" + n for n in LAXABLE]
@@ -47,43 +47,6 @@ def impl(case):
 # its data; both must succeed and be equal to the first result including the container TYPE at every level.
 # op "copy": utils.functional.copy_value against the T1-generated model (container class and == at every level).
 # ------------------------------------------------------------------------------------------------
-
-def enc2(v):
-    """pyval.encode plus dicts ({"m": [[k, v], ...]} in insertion order) and dict views"""
-    if isinstance(v, dict) and type(v) is dict:
-        return {"m": [[enc2(k), enc2(x)] for k, x in v.items()]}
-    if type(v) is list:
-        return {"l": [enc2(x) for x in v]}
-    if type(v) is tuple:
-        return {"t": [enc2(x) for x in v]}
-    if type(v) in (set, frozenset):
-        items = sorted((enc2(x) for x in v), key=lambda x: json.dumps(x, sort_keys=True))
-        return {"S" if type(v) is set else "F": items}
-    if type(v) is type({}.values()):
-        return {"V": [enc2(x) for x in v]}
-    if type(v) is type({}.keys()):
-        return {"K": [enc2(x) for x in v]}
-    return encode(v)
-
-
-def dec2(j):
-    if isinstance(j, dict):
-        if "m" in j:
-            return {dec2(k): dec2(x) for k, x in j["m"]}
-        if "l" in j:
-            return [dec2(x) for x in j["l"]]
-        if "t" in j:
-            return tuple(dec2(x) for x in j["t"])
-        if "S" in j:
-            return {dec2(x) for x in j["S"]}
-        if "F" in j:
-            return frozenset(dec2(x) for x in j["F"])
-        if "V" in j:
-            return {i: dec2(x) for i, x in enumerate(j["V"])}.values()
-        if "K" in j:
-            return {dec2(x): None for x in j["K"]}.keys()
-    return decode(j)
-
 
 def deep(v):
     """type-exact structural description of a result (for comparison and for the replay)"""
